@@ -783,7 +783,7 @@ def roi_from_points(
     _in = np.clip(np.floor(xy.min(axis=0)), -lim, lim).astype("int64") - padding
     _out = np.clip(np.ceil(xy.max(axis=0)), -lim, lim).astype("int64") + padding
 
-    if align is not None:
+    if align:  # 0 means no alignment, same as None
         _in = align_down(_in, align)
         _out = align_up(_out, align)
 
